@@ -74,7 +74,13 @@ fn gen_k(t: &mut Tape, len: usize) -> usize {
         0 => t.range(0, 3) as usize,
         1 => t.range(0, len as i64 + 1) as usize,
         2 => *t.pick(&[len.saturating_sub(1), len, len + 1]),
-        _ => usize::MAX,
+        // far beyond the end: usize::MAX, and values whose low 32 (or 16) bits are small
+        _ => match t.below(4) {
+            0 => usize::MAX,
+            1 => (1usize << 32) + t.range(0, 3) as usize,
+            2 => ((t.range(1, 1000) as usize) << 32) | t.range(0, len as i64) as usize,
+            _ => (1usize << 16) + t.range(0, 3) as usize,
+        },
     }
 }
 
@@ -385,7 +391,7 @@ pub fn property() -> Property {
         subchecks: vec![
             SubCheck {
                 name: "difficulty-iterator-model",
-                rule: "G-MAP (all modes + converts, <=30 objects, sizes 0-3 emphasised) x G-DIFF x op sequence (1-24 ops of next, nth(k) with k in {0..3, around the end, usize::MAX}, len, size_hint, by_ref().step_by/skip/take/zip/count/last/collect). Reference model: the sequence S a fresh twin yields with plain next() and a cursor; every observation (values same-value-equal on all fields, len/size_hint after every op, None forever after exhaustion) must match. Non-trivial: >=1 nth(k>=1) hitting inside the sequence and >=1 call after exhaustion.",
+                rule: "G-MAP (all modes + converts, <=30 objects, sizes 0-3 emphasised) x G-DIFF x op sequence (1-24 ops of next, nth(k) with k in {0..3, around the end, usize::MAX, 2^32+j, m*2^32+j, 2^16+j}, len, size_hint, by_ref().step_by/skip/take/zip/count/last/collect). Reference model: the sequence S a fresh twin yields with plain next() and a cursor; every observation (values same-value-equal on all fields, len/size_hint after every op, None forever after exhaustion) must match. Non-trivial: >=1 nth(k>=1) hitting inside the sequence and >=1 call after exhaustion.",
                 quick: 60_000,
                 thorough: 200_000,
                 tape_len: 1300,
